@@ -40,9 +40,23 @@ type SymConst struct {
 	Value string `json:"value"`
 }
 
+// sigOf: the signature with the receiver written as the first parameter, so
+// that a method and the function it is turned into (or back) look alike.
 func sigOf(fn *ssa.Function) string {
 	q := func(p *types.Package) string { return "" }
-	return types.TypeString(fn.Signature, q)
+	sig := fn.Signature
+	var parts []string
+	if r := sig.Recv(); r != nil {
+		parts = append(parts, types.TypeString(r.Type(), q))
+	}
+	for i := 0; i < sig.Params().Len(); i++ {
+		parts = append(parts, types.TypeString(sig.Params().At(i).Type(), q))
+	}
+	var res []string
+	for i := 0; i < sig.Results().Len(); i++ {
+		res = append(res, types.TypeString(sig.Results().At(i).Type(), q))
+	}
+	return "(" + strings.Join(parts, ", ") + ") (" + strings.Join(res, ", ") + ")"
 }
 
 func currentSymbols(p *core.Program) *Symbols {
@@ -278,8 +292,8 @@ func (a *Anchors) detectRenames(verifDir string) {
 			if i := strings.LastIndex(n, "."); i >= 0 {
 				r2 = n[:i+1]
 			}
-			if r2 != recv {
-				continue
+			if r2 != recv && r2 != "" && recv != "" {
+				continue // a method of another type
 			}
 			d := float64(f.Instrs-want.Instrs) / float64(want.Instrs+1)
 			if d < 0 {
